@@ -75,7 +75,13 @@ void embedded_pairing_bls12_381_zp_from_hash(embedded_pairing_core_bigint_256_t*
 }
 
 void embedded_pairing_bls12_381_g1_add(embedded_pairing_bls12_381_g1_t* result, const embedded_pairing_bls12_381_g1_t* a, const embedded_pairing_bls12_381_g1_t* b) {
-    reinterpret_cast<G1*>(result)->add(*reinterpret_cast<const G1*>(a), *reinterpret_cast<const G1*>(b));
+    /* The C++ method requires that its second operand not alias the result. */
+    if (static_cast<const void*>(result) == static_cast<const void*>(b)) {
+        const G1 b_copy = *reinterpret_cast<const G1*>(b);
+        reinterpret_cast<G1*>(result)->add(*reinterpret_cast<const G1*>(a), b_copy);
+    } else {
+        reinterpret_cast<G1*>(result)->add(*reinterpret_cast<const G1*>(a), *reinterpret_cast<const G1*>(b));
+    }
 }
 
 void embedded_pairing_bls12_381_g1_add_mixed(embedded_pairing_bls12_381_g1_t* result, const embedded_pairing_bls12_381_g1_t* a, const embedded_pairing_bls12_381_g1affine_t* b) {
@@ -127,7 +133,13 @@ bool embedded_pairing_bls12_381_g1affine_equal(const embedded_pairing_bls12_381_
 }
 
 void embedded_pairing_bls12_381_g2_add(embedded_pairing_bls12_381_g2_t* result, const embedded_pairing_bls12_381_g2_t* a, const embedded_pairing_bls12_381_g2_t* b) {
-    reinterpret_cast<G2*>(result)->add(*reinterpret_cast<const G2*>(a), *reinterpret_cast<const G2*>(b));
+    /* The C++ method requires that its second operand not alias the result. */
+    if (static_cast<const void*>(result) == static_cast<const void*>(b)) {
+        const G2 b_copy = *reinterpret_cast<const G2*>(b);
+        reinterpret_cast<G2*>(result)->add(*reinterpret_cast<const G2*>(a), b_copy);
+    } else {
+        reinterpret_cast<G2*>(result)->add(*reinterpret_cast<const G2*>(a), *reinterpret_cast<const G2*>(b));
+    }
 }
 
 void embedded_pairing_bls12_381_g2_add_mixed(embedded_pairing_bls12_381_g2_t* result, const embedded_pairing_bls12_381_g2_t* a, const embedded_pairing_bls12_381_g2affine_t* b) {
